@@ -1211,3 +1211,55 @@ Lemma rt_prop_partial eps p t : 0 <= eps -> params_pos p -> cousin_guard t = tru
 Proof.
   intros He Hp HG. unfold prop_C19. rewrite rt_but_cousins, rt_cousins_partial by assumption. reflexivity.
 Qed.
+
+(* ---------------------------------------------------------------------------------------------
+   The fuel of `contour` never runs out (for every tree, no guard): the recursion descends one
+   level of the left subtree per call, so any fuel >= the height of the left contour nodes gives
+   the same result; subtree_shift passes dheight left. *)
+Lemma pick_in : forall X dflt, X <> [] -> In (pick X dflt) X.
+Proof.
+  induction X as [|d X IH]; intros dflt Hne; [congruence|]. cbn [pick].
+  destruct (dkids d); [|left; reflexivity].
+  destruct X as [|e X']; [left; reflexivity|]. right. apply IH. discriminate.
+Qed.
+
+Lemma sheight_kid d k : In k (dkids d) -> (sheight (sk_d k) < sheight (sk_d d))%nat.
+Proof.
+  intros Hk. rewrite (sk_d_unfold d). cbn [sheight].
+  assert (sheight (sk_d k) <= maxh sheight (map sk_d (dkids d)))%nat by (apply maxh_ge, in_map, Hk). lia.
+Qed.
+
+Lemma contour_fuel rt sts : forall f1 f2 X Rk lcs rcs cum,
+  (forall x, In x X -> sheight (sk_d x) <= f1)%nat ->
+  (forall x, In x X -> sheight (sk_d x) <= f2)%nat ->
+  contour f1 rt sts X Rk lcs rcs cum = contour f2 rt sts X Rk lcs rcs cum.
+Proof.
+  induction f1 as [|f1 IH]; intros f2 X Rk lcs rcs cum H1 H2.
+  - destruct X as [|l0 X']; [destruct f2; reflexivity|].
+    exfalso. pose proof (H1 l0 (or_introl eq_refl)). pose proof (sheight_ge1 (sk_d l0)). lia.
+  - destruct X as [|l0 X']; [destruct f2; reflexivity|].
+    destruct f2 as [|f2].
+    { exfalso. pose proof (H2 l0 (or_introl eq_refl)). pose proof (sheight_ge1 (sk_d l0)). lia. }
+    destruct Rk as [|r0 Rk']; [reflexivity|]. cbn [contour].
+    set (l := pick (l0 :: X') l0).
+    assert (Hl : In l (l0 :: X')) by (apply pick_in; discriminate).
+    destruct (dkids l) as [|a b] eqn:El; [reflexivity|].
+    destruct (dkids (pick (r0 :: Rk') r0)) as [|a' b']; [reflexivity|].
+    rewrite <- El. apply IH; intros x Hx; apply in_rev in Hx; apply sheight_kid in Hx.
+    + specialize (H1 l Hl). lia.
+    + specialize (H2 l Hl). lia.
+Qed.
+
+Lemma subtree_shift_fuel sts left right li ri f : (dheight left <= f)%nat ->
+  subtree_shift sts left right li ri =
+  match dkids left, dkids right with
+  | _ :: _, _ :: _ => contour f (ratio li ri) sts (rev (dkids left)) (dkids right)
+                              (Qred (dmod left + dsh left)) (Qred (dmod right + dsh right)) 0
+  | _, _ => 0
+  end.
+Proof.
+  intros Hf. unfold subtree_shift. destruct (dkids left) as [|a b] eqn:El; [reflexivity|].
+  destruct (dkids right) as [|a' b']; [reflexivity|]. rewrite <- El.
+  rewrite dheight_sk in *.
+  apply contour_fuel; intros x Hx; apply in_rev in Hx; apply sheight_kid in Hx; lia.
+Qed.
